@@ -13,7 +13,8 @@ NAMES = ["d1", "d2", "d3"]
 
 def swarm(rng):
     return {"n_steps": rng.choice([10, 16, 24, 32]), "two_models": rng.random() < 0.4, "p_hostile": rng.choice([0.1, 0.25]),
-            "p_save": rng.choice([0.05, 0.15]), "structure": rng.random() < 0.6, "modules": rng.random() < 0.4}
+            "p_save": rng.choice([0.05, 0.15]), "structure": rng.random() < 0.6, "modules": rng.random() < 0.4,
+            "cells": rng.random() < 0.5, "abs_paths": rng.random() < 0.5}
 
 
 class Session:
@@ -29,7 +30,7 @@ class Session:
     def new_model(self, name):
         m = mx.new_model(name)
         rec = {"m": m, "values": {}, "bind": {}, "paths": {}, "plain": {}, "kind": {}, "text": {},
-               "spaces": {"A": [], "B": ["A"], "C": []}}
+               "spaces": {"A": [], "B": ["A"], "C": []}, "cells": set()}
         self.models.append(rec)
         m.new_space("A")
         m.new_space("B", bases=m.A)
@@ -82,6 +83,19 @@ class Session:
                 return ("plain", rec["plain"][(w, name)])
         return None
 
+    def cells_visible(self, rec, where, name):
+        if where == "":
+            return False
+        return any((w, name) in rec["cells"] for w in (self.mro(rec, where) or [where]))
+
+    def resolve(self, path):
+        """ABS:<file> stands for an absolute location outside every model directory (shared by all models)."""
+        if path.startswith("ABS:"):
+            if self.dir is None:
+                self.dir = self.ctx.tmpdir("io")
+            return os.path.join(self.dir, "abs", path[4:])
+        return path
+
     def visible_vid(self, rec, where, name):
         v = self.visible(rec, where, name)
         return v[1] if v and v[0] == "vid" else None
@@ -101,7 +115,7 @@ class Session:
             cont = self.container(rec, op["where"])
             if self.dir is None:
                 self.dir = self.ctx.tmpdir("io")
-            path = op["path"]
+            path = self.resolve(op["path"])
             specs0 = list(m.iospecs)
             bind0 = dict(rec["bind"])
             val = None
@@ -119,6 +133,8 @@ class Session:
             except Exception as e:
                 ok = False
                 self.events.append("rejected %s" % type(e).__name__)
+            if ok and op["name"] not in cont.refs:
+                raise Violation("C18/creation-accepted-without-a-reference", {"op": op, "is_cells": self.cells_visible(rec, op["where"], op["name"])})
             if ok:
                 rec["values"][vid] = val
                 rec["bind"][(op["where"], op["name"])] = vid
@@ -130,6 +146,13 @@ class Session:
                 self.ctx.count("rejected_creations", 1, "reach")
                 if [id(s) for s in m.iospecs] != [id(s) for s in specs0]:
                     raise Violation("C18/rejected-creation-left-a-spec", {"op": op})
+                if val is not None:
+                    try:
+                        sp_ = m.get_spec(val)
+                    except Exception:
+                        sp_ = None
+                    if sp_ is not None:
+                        raise Violation("C18/rejected-creation-left-a-spec/get_spec-finds-it", {"op": op})
                 if val is not None and op["name"] in getattr(cont, "refs") and (op["where"], op["name"]) not in bind0 \
                         and self.visible(rec, op["where"], op["name"]) is None:
                     try:
@@ -142,7 +165,7 @@ class Session:
             if op["src_where"] != "" and op["src_where"] not in rec["spaces"]:
                 return
             vid = self.visible_vid(rec, op["src_where"], op["src"])
-            if vid is None:
+            if vid is None or self.cells_visible(rec, op["where"], op["name"]):
                 return
             cont = self.container(rec, op["where"])
             try:
@@ -153,7 +176,7 @@ class Session:
                 self.events.append("assign rejected %s" % type(e).__name__)
         elif k == "rebind_plain":
             cont = self.container(rec, op["where"])
-            if self.visible(rec, op["where"], op["name"]) is None:
+            if self.visible(rec, op["where"], op["name"]) is None or self.cells_visible(rec, op["where"], op["name"]):
                 return
             try:
                 setattr(cont, op["name"], op["v"])
@@ -229,6 +252,17 @@ class Session:
             m.close()
             self.models.remove(rec)
             return
+        elif k == "new_cells":
+            if op["where"] == "":
+                return
+            cont = self.container(rec, op["where"])
+            try:
+                cont.new_cells(op["name"], formula="lambda: 1")
+            except Exception as e:
+                self.events.append("new_cells rejected %s" % type(e).__name__)
+                return
+            rec["cells"].add((op["where"], op["name"]))
+            self.ctx.count("cells_created", 1, "reach")
         elif k == "new_space_refs":
             # a new space created with refs={name: value}: the value is bound by the creation itself
             if op["space"] in rec["spaces"] or op["space"] in m.refs:
@@ -263,6 +297,10 @@ class Session:
                 self.events.append("copy rejected %s" % type(e).__name__)
                 return
             rec["spaces"][op["space"]] = []
+            for w in (self.mro(rec, op["src"]) or [op["src"]]) if False else [op["src"]]:
+                for (ww, n) in list(rec["cells"]):
+                    if ww == w:
+                        rec["cells"].add((op["space"], n))
             for n, (kind, x) in seen.items():
                 (rec["bind"] if kind == "vid" else rec["plain"])[(op["space"], n)] = x
             self.ctx.count("spaces_copied", 1, "reach")
@@ -275,6 +313,7 @@ class Session:
                 self.events.append("del_space rejected %s" % type(e).__name__)
                 return
             del rec["spaces"][op["space"]]
+            rec["cells"] = {c for c in rec["cells"] if c[0] != op["space"]}
             for d in (rec["bind"], rec["plain"]):
                 for key in [key for key in d if key[0] == op["space"]]:
                     del d[key]
@@ -341,6 +380,8 @@ class Session:
             for where in [""] + sorted(rec["spaces"]):
                 cont = self.container(rec, where)
                 for name in NAMES:
+                    if self.cells_visible(rec, where, name):
+                        continue
                     exp = self.visible(rec, where, name)
                     if exp is None:
                         continue
@@ -380,8 +421,12 @@ class Session:
             if q < 0.85:
                 return {"op": "add_base", "mi": mi, "space": rng.choice(SPACES + EXTRA), "base": rng.choice(SPACES + EXTRA)}
             return {"op": "remove_base", "mi": mi, "space": rng.choice(SPACES + EXTRA), "base": rng.choice(SPACES + EXTRA)}
+        if self.cfg.get("cells") and r < 0.3 and rng.random() < 0.2:
+            return {"op": "new_cells", "mi": mi, "where": rng.choice(sorted(rec["spaces"])), "name": name}
         if r < 0.3:
             path = "files/%s.csv" % rng.choice(["p1", "p2", "p3", "p4"])
+            if self.cfg.get("abs_paths") and rng.random() < 0.35:
+                path = "ABS:%s.csv" % rng.choice(["a1", "a2"])
             if self.cfg.get("modules") and rng.random() < 0.35:
                 return {"op": "new_module", "mi": mi, "where": where, "name": name, "path": "mods/%s.py" % rng.choice(["m1", "m2"])}
             return {"op": "new_pandas", "mi": mi, "where": where, "name": name, "path": path}
